@@ -43,7 +43,7 @@ func (h *harness) mutateDoc(doc *JV) *JV {
 		var nodes []*JV
 		h.collect(d, &nodes)
 		v := vh.Pick(r, nodes)
-		switch r.Intn(11) {
+		switch r.Intn(13) {
 		case 0: // replace a string
 			if v.kind == jStr {
 				v.s = vh.Pick(r, mutStrings)
@@ -101,6 +101,18 @@ func (h *harness) mutateDoc(doc *JV) *JV {
 				default:
 					c.ms = append(c.ms, jmember{vh.Pick(r, mutStrings), h.randomScalar()})
 				}
+			}
+		case 10: // a local context on some object: inherited definitions must survive it
+			if v.kind == jObj && v.get("@context") == nil {
+				lc := vh.Pick(r, []*JV{
+					jobj(), jnull(),
+					jobj(jm("@language", jstr("de"))), jobj(jm("@language", jnull())),
+					jobj(jm("@vocab", jstr("http://example.org/vocab/"))), jobj(jm("@vocab", jnull())),
+					jobj(jm("name", jstr("http://example.org/ns#name"))),
+					jobj(jm("@base", jstr("http://e.com/other/"))),
+					jarr(jobj(), jobj(jm("ex", jstr("http://example.org/ns#")))),
+				})
+				v.ms = append([]jmember{{"@context", lc.clone()}}, v.ms...)
 			}
 		default: // swap two members
 			if v.kind == jObj && len(v.ms) > 1 {
